@@ -151,6 +151,23 @@ CHECKS["C11"] = dict(
     technique="field-coverage agreement + path exploration with guard facts and inlining + argument-flow checks",
     design="3/C11")
 
+
+CHECKS["C15"] = dict(
+    text="Decides data-race freedom of the library's own process-wide state, for all interleavings, up to the trusted model (OpenSSL/c-ares/glibc "
+         "thread-safe for distinct objects; constructors run before other threads): every non-const, non-thread-local object with static storage in "
+         "libxcm/libxcmctl (20 today, discovered from the program, not listed) is classified from the complete set of its access sites - direct, "
+         "through pointer parameters bound to it, or through callees that only use the pointer as an __atomic operand - as constructor-only written, "
+         "atomic-only (a plain access to an atomically accessed object is a violation), never written, a mutex, or lock-protected (one mutex in the "
+         "must-lockset at every access; locksets flow into static helpers as the intersection over their call sites; lock wrappers recognised by their "
+         "net effect). A new global without a class, or an access outside the lock, is a violation. Also: every lock acquired is released on every "
+         "non-aborting exit (dataflow + path exploration), no blocking primitive inside a critical section, and no pointer into locked storage is "
+         "dereferenced after the unlock unless the record is reference-counted. A positive control (the socket-id allocator with its lock calls "
+         "hidden must be reported) runs on every check. Not decided: that each thread's connections keep the delivery guarantees beyond the absence "
+         "of shared mutable state; races inside OpenSSL/c-ares/lttng-ust.",
+    note=TRUSTED + " Objects whose declaration is spelled in a system header (lttng-ust tracepoint expansions) belong to that library.",
+    technique="must-lockset dataflow with parameter binding and wrapper summaries + access-site classification of every static-storage object",
+    design="3/C15")
+
 NOT_APPLICABLE = {}
 
 
